@@ -362,6 +362,37 @@ def oracle_c25(ctx, budget_s):
                      "nested Nest is associative in length and solution count")
     g = D.Gen(rng, max_trials=4)
     t_end = ctx.elapsed() + budget_s
+    # nested Nest: both bracketings have the same length, the same sustain structure and the same sequences
+    for (na, nb, nc) in ((2, 2, 2), (3, 2, 2), (2, 3, 2), (2, 2, 3)) if ctx.big() else ((2, 2, 2), (3, 2, 2)):
+        fa, fb, fc = O._sf(0, ["a1", "a2", "a3"][:na]), O._sf(10, ["b1", "b2", "b3"][:nb]), O._sf(20, ["c1", "c2", "c3"][:nc])
+        la = {"k": "cross", "design": [0], "crossing": [0], "rcc": True, "cs": []}
+        lb = {"k": "cross", "design": [10], "crossing": [10], "rcc": True, "cs": []}
+        lc = {"k": "cross", "design": [20], "crossing": [20], "rcc": True, "cs": []}
+        left = {"factors": [fa, fb, fc], "block": {"k": "nest", "cs": [], "align": None, "inner": lc,
+                                                  "outer": {"k": "nest", "cs": [], "align": None, "outer": la, "inner": lb}}}
+        right = {"factors": [fa, fb, fc], "block": {"k": "nest", "cs": [], "align": None, "outer": la,
+                                                   "inner": {"k": "nest", "cs": [], "align": None, "outer": lb, "inner": lc}}}
+        res = []
+        for dsc in (left, right):
+            case = O.Case(ctx, dsc)
+            if not case.build():
+                res.append(("rejected", case.reject))
+                continue
+            case.regs = set()
+            n = case.built.block.trials_per_sample()
+            seqs = OD.check_sound(ctx, case, "IterateSATGen", 30, "C25") or []
+            res.append((n, case))
+            if n != na * nb * nc:
+                report(ctx, "nest", case, "nested Nest of %d x %d x %d trials reports %d trials" % (na, nb, nc, n))
+            if case.geo["error"] is None and case.geo["n"] != n:
+                report(ctx, "nest", case, "nested Nest: %d trials, documented arithmetic %d" % (n, case.geo["n"]))
+        ctx.count("C25.associativity")
+        ctx.case(("C25", "assoc", na, nb, nc), True, sample={"associativity": [na, nb, nc]} if len(ctx.samples) < 2 else None)
+        if ctx.failures:
+            return
+        if all(isinstance(r[0], int) for r in res) and res[0][0] != res[1][0]:
+            report(ctx, "nest", res[0][1], "Nest(Nest(a,b),c) has %d trials, Nest(a,Nest(b,c)) %d" % (res[0][0], res[1][0]))
+            return
     while ctx.elapsed() < t_end:
         lo = O.gen_leaf(g, fid0=0, small=True, want_derived=0, kinds=["Pin", "ExactlyK"], allow_weights=False)
         li = O.gen_leaf(g, fid0=10, small=True, want_derived=rng.choice([0, 1]), kinds=["Pin", "AtMostKInARow", "ExactlyK"], allow_weights=False)
